@@ -15,7 +15,7 @@ from . import common, coqterm, gen
 from .c04 import fresh_schema_name
 from .coqterm import coq_list, coq_string, coq_pyval, coq_option, coq_float
 
-PROPERTY_FILES = ["Properties/C05.v", "Proofs/LiteralFacts.v", "Proofs/ArgsRefine.v", "Proofs/LiteralRefine.v", "Properties/C05Typing.v", "Proofs/InputTyping.v"]
+PROPERTY_FILES = ["Properties/C05.v", "Proofs/LiteralFacts.v", "Proofs/ArgsRefine.v", "Proofs/LiteralRefine.v", "Properties/C05Typing.v", "Proofs/InputTyping.v", "Proofs/BuiltinLeaves.v"]
 
 
 def json_of_lit(x):
